@@ -11,7 +11,7 @@ PROP_MODULES = {
     'C19': ['contracts.builders', 'contracts.shared_grid', 'contracts.c05_compact'],
     'C06': ['contracts.builders', 'contracts.shared_grid', 'contracts.c05_compact', 'contracts.c06_atomic'],
     'C09': ['contracts.builders', 'contracts.shared_grid', 'contracts.c03_grid', 'contracts.c04_meta', 'contracts.c05_compact', 'contracts.c16_limits', 'contracts.c05_paths', 'contracts.c09_paths'],
-    'C18': ['contracts.builders', 'contracts.c18_errors'],
+    'C18': ['contracts.builders', 'contracts.c18_errors', 'contracts.c17_upstream'],
     'C01': ['contracts.builders', 'contracts.shared_grid', 'contracts.c03_grid', 'contracts.c04_meta', 'contracts.c17_upstream', 'contracts.c01_georef', 'contracts.c16_limits'],
     'C12': ['contracts.builders', 'contracts.shared_grid', 'contracts.c03_grid', 'contracts.c04_meta', 'contracts.c08_creator', 'contracts.c11_seed', 'contracts.c13_expiry', 'contracts.c05_paths', 'contracts.c12_cleanup', 'contracts.c05_sqlite'],
     'C11': ['contracts.builders', 'contracts.shared_grid', 'contracts.c03_grid', 'contracts.c04_meta', 'contracts.c11_seed'],
@@ -86,7 +86,8 @@ MANIFEST_META = {
              'exception freedom across dynamic dispatch, templates, PIL decoders), image decodability, XML well-formedness of '
              'rendered templates are NOT covered; repaired through this check: S15/S24 (in-image error Content-type), S29 (control characters '
              'in XML error documents; xml_text is bounded), plus contracts for DemoServer templates (taint propagation) and Request.host '
-             '(total for every Host header)'),
+             '(total for every Host header); S37: SourceError texts (copied into every error document) carried the upstream URL / mapserver '
+             'paths - now constant, under contract for WMSClient._check_resp and CGIClient.open'),
     'C09': dict(
         text='Proof that the paths built from numbers stay below their root: compact bundle file = cache_dir/L<z>/R<r>C<c> (two '
              'safe segments, string lemma), lock file = lock_dir/<cache id>-x-y-z.lck (one segment; injective for non-negative '
@@ -155,7 +156,7 @@ MANIFEST_META = {
              'sqlite backends, real file-system time stamps and shutil.rmtree are outside; strategy choice in cleanup() is under '
              'contract (coverage-blind strategies only for complete extents and only with a cache offering the operation); known finding S31 '
              '(quadkey layout: level function raises); MBTiles level removal and the time base of last_modified are under contract; the dimension sub-path is assumed free of leading/trailing "/" (bounded check of '
-             'dimensions_part)'),
+             'dimensions_part); S38 (resumed directory clean-up skipped levels 10-19 of the tms layout) repaired, DirectoryCleanupProgress.can_skip is a BOUNDED contract'),
     'C11': dict(
         text='Proof on the real seeder code: SeedProgress.can_skip is exactly "current is behind old" for progress paths of '
              'any length (first differing position decides, a prefix or the path itself is never skipped); limit_sub_bbox is '
@@ -219,7 +220,8 @@ MANIFEST_META = {
         note='pixel arithmetic (PIL alpha_composite/blend/paste) is an algebra of opaque symbols: the proof is about WHICH operation is '
              'applied to WHICH operands in WHICH order, not about pixel values; mask_polygons (BBOXCoverage, S16), WMSGroupLayer.is_opaque (S33) '
              'and the parameter equality of combined requests (S34) are under contract and were repaired; defects S6 (opacity 0 counted opaque) and S7 (single '
-             'layer ignores opacity) were found by this check and repaired in /repo (089f0af, 82bd189)'),
+             'layer ignores opacity) were found by this check and repaired in /repo (089f0af, 82bd189); S40 (opacity < 1 on output without alpha dropped '
+             'the layer transparency) repaired'),
     'C17': dict(
         text='Proof of call-site preconditions on the real WMSSource code (all paths, all inputs): at every '
              'client.retrieve(q, fmt) the format is in supported_formats and the SRS in supported_srs whenever those lists '
@@ -264,7 +266,8 @@ MANIFEST_META = {
              'level z+1 in the rectangle of the parent, advertised iff the lower-left corner lies inside it, with the full tile_bbox and '
              'the external address of that very tile, y-flipped for non-lower-left origins) and the origin handling of the TMS/KML handlers; the XML templates (TMS Origin/BoundingBox, '
              'WMS-C TileSet) and KML link generation are outside; the composition '
-             'lemmas restate contract clauses by hand; floats as reals; known finding S9 (WMTS on sqrt2 grids)'),
+             'lemmas restate contract clauses by hand; floats as reals; known finding S9 (WMTS on sqrt2 grids); S39 (row flipped on grids that cannot be flipped: TMS on unaligned origin=ul grids) '
+             'repaired through the new postcondition of TileLayer._internal_tile_coord'),
     'C16': dict(
         text='Proof on the real code that requests are validated before they cost anything: limit_tile answers non-None '
              'exactly for in-grid addresses (int and named levels, negative and huge values, all grids); the public->internal '
@@ -308,8 +311,8 @@ MANIFEST_META = {
              'to its tile manager.',
         note='wall-clock functions (mktime, time zones), sqlite timestamp resolution and the seed-task path are outside; '
              'timestamps assumed non-negative; known finding S10 (sub-second window); S32 (seed threshold overridden by the cache rule) and '
-             'S21 (stale metadata kept on the tile) repaired; DST shift of relative thresholds and hard-linked single-colour tiles are '
-             'observations outside the contracts'),
+             'S21 (stale metadata kept on the tile) repaired; S36 (relative thresholds an hour off after a DST switch) repaired - timestamp_before is under contract; '
+             'the mtime of hard-linked single-colour tiles is an observation outside the contracts'),
     'C03': dict(
         text='Proof (all grids, all levels, all coordinates, no bound) that the real grid.py functions meet contracts '
              'taken from the property text: tile() contains its point, tile_bbox edges are the exact affine edges '
